@@ -182,6 +182,9 @@ func globals(repo, dir string) []globalVar {
 						kind = "map"
 					case *ast.ArrayType:
 						kind = "slice"
+						if t.(*ast.ArrayType).Len != nil {
+							kind = "array" // fixed-size storage: slicing it hands out a window into the package-level variable
+						}
 					case *ast.StarExpr:
 						kind = "pointer"
 					case *ast.FuncType:
@@ -265,6 +268,13 @@ func globals(repo, dir string) []globalVar {
 				case *ast.CallExpr:
 					if id, ok := x.Fun.(*ast.Ident); ok && (id.Name == "delete" || id.Name == "clear" || id.Name == "copy") && len(x.Args) > 0 {
 						note(x.Args[0])
+					}
+				case *ast.SliceExpr:
+					// x[a:b] of a package-level ARRAY is a slice that aliases the variable: whoever receives it can write it
+					if id, ok := x.X.(*ast.Ident); ok {
+						if v, ok := vars[id.Name]; ok && !local[id.Name] && v.kind == "array" {
+							v.writers = append(v.writers, fname+"([:])")
+						}
 					}
 				case *ast.UnaryExpr:
 					if x.Op == token.AND {
